@@ -147,7 +147,10 @@ fn check_mutant(rep: &mut Report, f: &ValidFile, mutant: &[u8], what: &str, mode
         rep.count(&format!("outcome-mt.{}", o.class()));
         match &o {
             Outcome::Ok(out) => {
-                if out != &f.data {
+                // (as for the single-threaded reader: a file cut exactly at a member boundary, or whose later member has
+                //  a damaged magic, is by the format's definition a complete shorter file)
+                let tolerated = f.data.starts_with(out) && lzip_prefix_members(&f.bytes, mutant, out.len());
+                if out != &f.data && !tolerated {
                     rep.fail(&format!("corrupt-accepted:lzip-mt:{}", what.split('@').next().unwrap_or(what)), &format!("LZIPReaderMT decoded a corrupted file successfully to different data ({} bytes, original {})", out.len(), f.data.len()), detail());
                 }
             }
@@ -213,8 +216,11 @@ fn lzip_prefix_members(orig: &[u8], mutant: &[u8], out_len: usize) -> bool {
         // cumulative size: any of them qualifies)
         if cum == out_len && i >= 1 {
             idx = i;
-            // the first lost member starts at s: its magic must be damaged in the mutant
-            let same_prefix = mutant.len() >= s && mutant[..s] == orig[..s];
+            // the first lost member starts at s: its magic must be damaged in the mutant, and the retained members are
+            // the original ones - except for their dictionary-size byte (offset 5 of each member), which no field of the
+            // format protects: a larger dictionary decodes the same bytes
+            let same_prefix = mutant.len() >= s
+                && (0..s).all(|k| mutant[k] == orig[k] || starts[..i].iter().any(|&st| k == st + 5));
             let magic_damaged = mutant.len() < s + 4 || &mutant[s..s + 4] != b"LZIP";
             let _ = idx;
             if same_prefix && magic_damaged {
